@@ -166,9 +166,11 @@ def run_one(entry, root):
     repo = os.path.join(d, "repo")
     verif = os.path.join(d, "verif")
     os.makedirs(verif)
-    subprocess.run(["rsync", "-a", "--exclude", ".git", REPO + "/", repo + "/"], check=True)
+    # the snapshot of /repo and of the specs / registry taken when the run started
+    # (so that work can go on in /repo and /verif while a corpus run is in progress)
+    subprocess.run(["rsync", "-a", os.path.join(root, "base-repo") + "/", repo + "/"], check=True)
     for s in ("specs", "registry.json", "known_findings.json", "known"):
-        os.symlink(os.path.join(VERIF, s), os.path.join(verif, s))
+        os.symlink(os.path.join(root, "base-verif", s), os.path.join(verif, s))
     if isinstance(edits, str):
         # a seeded change kept under /verif/seeded/<id>/patch.diff
         a = subprocess.run(["patch", "-p1", "-s", "-i", edits], cwd=repo, capture_output=True, text=True)
@@ -241,6 +243,10 @@ def main():
     root = tempfile.mkdtemp(prefix="lungovc-selftest.", dir="/var/tmp")
     # a private copy of the checker, so that the engine can be rebuilt while a corpus run is in progress
     shutil.copy2(os.path.join(VERIF, "bin", "lungovc"), os.path.join(root, "lungovc"))
+    subprocess.run(["rsync", "-a", "--exclude", ".git", REPO + "/", os.path.join(root, "base-repo") + "/"], check=True)
+    os.makedirs(os.path.join(root, "base-verif"))
+    for s in ("specs", "registry.json", "known_findings.json", "known"):
+        subprocess.run(["cp", "-a", os.path.join(VERIF, s), os.path.join(root, "base-verif", s)], check=True)
     bad = 0
     try:
         with cf.ThreadPoolExecutor(max_workers=jobs) as ex:
